@@ -493,7 +493,7 @@ def c10(ck):
         hcap = case.split(" ")[1]
         qs, at = [], []
         for k in range(1, len(st)):
-            if st[k]["sink"].startswith("W0d0a") and st[k]["r"] == "ok":
+            if sinkb(st[k]["sink"]).startswith("0d0a") and st[k]["r"] == "ok":
                 prev = hist_entries(st[k - 1]["hist"])
                 t = st[k - 1]["text"]
                 t = "" if t == "." else t
@@ -828,6 +828,19 @@ def c14(ck):
         if (f["text"], f["cur"]) not in (before, after_ok, (".", "0")):
             return "after the failed call the line is %s with the cursor at %s: neither as before (%s at %s), nor as the key would have left it (%s at %s), nor empty" % (
                 f["text"], f["cur"], before[0], before[1], after_ok[0], after_ok[1])
+        # later input is decoded normally: `x` typed with a working sink goes into the line at the cursor (unless the buffer is full)
+        if k + 1 < len(st) - 1 or (k + 1 < len(st) and st[k + 1] is not st[-1]):
+            nx = st[k + 1]
+            cap = int(case.split(" ")[0])
+            ft = "" if f["text"] == "." else f["text"]
+            try:
+                chars = bytes.fromhex(ft).decode("utf-8")
+                cur = int(f["cur"])
+                want = (chars[:cur] + "x" + chars[cur:]).encode("utf-8").hex() if len(ft) // 2 + 1 <= cap else ft
+                if nx["r"] == "ok" and (nx["text"] if nx["text"] != "." else "") != want:
+                    return "CLI not usable after the failure: `x` typed with a working sink leaves the line %s (expected %s)" % (nx["text"], want or ".")
+            except (UnicodeDecodeError, ValueError):
+                pass
         # later: typing x and Enter with a working sink dispatches only typed text
         last = st[-1]
         if last["r"] != "ok":
@@ -865,7 +878,9 @@ def c01(ck):
         st = parse_steps(o)
         if st is None:
             return o
-        return [(s_["calls"], s_["text"] == ".", s_["sink"].count("W" + ("2420" if False else ""))) if s_["calls"] != "-" else (s_["calls"], s_["text"], s_["cur"]) for s_ in st]
+        # dispatch steps: the call, "line empty afterwards", the prompt in force and the bytes shown (concatenated: how they are chunked
+        # into sink calls is no business of C01); other steps: line and cursor
+        return [(s_["calls"], s_["text"] == ".", s_["p"], sinkb(s_["sink"])) if s_["calls"] != "-" else (s_["calls"], s_["text"], s_["cur"]) for s_ in st]
 
     def oracle(case, io):
         st = parse_steps(io)
@@ -882,6 +897,12 @@ def c01(ck):
 
     ck.run_family(Family("session-dispatch", "ses", ses, oracle=oracle, project=proj, shrink=core.shrink_ops_line(4),
                          nontrivial=lambda c, o: "(" in o))
+    # the same with a sink that fails at arbitrary calls (once or for good) and API calls in between: whatever fails, one Enter calls the handler
+    # at most once and the line is empty after a dispatch - so nothing is dispatched a second time by the next Enter
+    fses = [gen.rand_session(rng, rng.choice([15, 40]), api=True, faults=True) for _ in range(n // 2)]
+    ck.run_family(Family("session-dispatch-faults", "ses", fses, oracle=oracle, decisive=False, shrink=core.shrink_ops_line(4),
+                         project=lambda o: [(s_["calls"], s_["text"], s_["cur"]) for s_ in (parse_steps(o) or [])] or o,
+                         nontrivial=lambda c, o: "(" in o and "X" in o))
     return ck.finish(trusted=TB_COMMON, rule="random sessions mixing characters of every encoded length, Backspace, Left/Right, Up/Down, Tab and all four terminators at buffer sizes 0..64 "
                      "(both buffers); handler-call log (name + classified arguments) per byte, line-empty after dispatch, implementation vs model; direct oracle: at most one "
                      "call per byte and the line is empty afterwards. non-trivial = at least one dispatch")
@@ -938,6 +959,7 @@ def c03(ck):
                     ops.append("b:0d")
             cap = rng.choice([0, 1, 2, 5, 9, 17, 33, 64, 120, 120, 120])
             dses.append("%d %d %d d%d %s" % (cap, rng.choice([0, 1, 7, 32, 64]), rng.randrange(4), k, ";".join(ops)))
+    dses += tab_sweep_sessions(declgen, sets)
     ck.run_family(Family("derived-session-malformed-debug", "ses", dses, oracle=oracle, shrink=core.shrink_ops_line(4), decisive=False,
                          project=lambda o: [(s_["r"], s_["text"], s_["cur"], s_["hist"], s_["calls"]) for s_ in (parse_steps(o) or [])] or o,
                          nontrivial=lambda c, o: True))
@@ -1083,6 +1105,23 @@ def ensure_decls(ck):
     return declgen, sets
 
 
+def tab_sweep_sessions(declgen, sets, maxpre=3):
+    """Tab on short prefixes of every name with multi-byte characters at EVERY command-buffer size between the typed prefix and the whole
+    name (+1 for the trailing blank, +1 beyond): the free space ends on every byte of every character of the completion"""
+    out = []
+    for k, s_ in enumerate(sets):
+        for nm in declgen.all_names(s_):
+            nb = nm.encode("utf-8")
+            if len(nb) == len(nm):
+                continue
+            for j in range(1, min(maxpre, len(nm)) + 1):
+                pre = nm[:j].encode("utf-8")
+                for lead in ("", "20"):
+                    for cap in range(len(pre) + len(lead) // 2, len(nb) + len(lead) // 2 + 3):
+                        out.append("%d 16 1 d%d b:%s%s;b:09;b:0d" % (cap, k, lead, gen.hx(pre)))
+    return out
+
+
 def lines_to_session(k, lines, cap=80, hcap=64):
     return "%d %d 1 d%d %s" % (cap, hcap, k, ";".join("b:" + gen.hx(l.encode("utf-8")) + ";b:0d" for l in lines))
 
@@ -1119,6 +1158,9 @@ def c09(ck):
     cases = []
     for k, s_ in enumerate(sets):
         lines = [declgen.rand_decl_line(rng, s_) for _ in range(per)]
+        for e in declgen.set_enums(s_):
+            for c_ in e["cmds"]:
+                lines += declgen.missing_arg_lines(rng, c_)       # each required argument missing on its own
         for i in range(0, len(lines), 8):
             cases.append(lines_to_session(k, lines[i:i + 8], cap=120))
 
@@ -1126,7 +1168,7 @@ def c09(ck):
         st = parse_steps(o)
         if st is None:
             return o
-        return [(x["r"], x["calls"], sinkb(x["sink"])) for x in st if x["calls"] != "-" or "0d0a" in x["sink"]]
+        return [(x["r"], x["calls"], sinkb(x["sink"])) for x in st if x["calls"] != "-" or "0d0a" in sinkb(x["sink"])]
 
     def oracle(case, io):
         es = enter_steps(case, io)
@@ -1201,7 +1243,7 @@ def c12(ck):
         st = parse_steps(o)
         if st is None:
             return o
-        return [(x["r"], x["calls"], sinkb(x["sink"])) for x in st if x["calls"] != "-" or "0d0a" in x["sink"]]
+        return [(x["r"], x["calls"], sinkb(x["sink"])) for x in st if x["calls"] != "-" or "0d0a" in sinkb(x["sink"])]
 
     def oracle(case, io):
         es = enter_steps(case, io)
@@ -1259,6 +1301,19 @@ def c16(ck):
         if k < (len(sets) if thorough else 8):
             lines = [declgen.rand_decl_line(rng, s_) for _ in range(6)] + ["help", declgen.q((declgen.all_names(s_) or ["x"])[0]) + " --help"]
             ses.append(lines_to_session(k, lines, cap=100))
+            # every command with nothing after its name, and with every positional but the last: "missing required argument" by its
+            # usage name (value_name attributes included) must read the same whatever features are compiled in
+            bare = []
+            for e in declgen.set_enums(s_):
+                for c_ in e["cmds"]:
+                    nm_ = declgen.q(declgen.cmd_name(c_))
+                    bare.append(nm_)
+                    npos = len([a for a in c_["args"] if a["kind"] == "pos"])
+                    if npos > 1:
+                        bare.append(nm_ + " v" * (npos - 1))
+                    bare += declgen.missing_arg_lines(rng, c_)
+            for i in range(0, len(bare), 8):
+                ses.append(lines_to_session(k, bare[i:i + 8], cap=100))
             nm = (declgen.visible_names(s_) or ["x"])[0]
             ses.append("30 32 1 d%d b:%s;b:09;b:0d;b:1b5b41" % (k, gen.hx(nm[:1].encode("utf-8"))))
             # Tab on prefixes of names of HIDDEN groups (no feature may turn them into completion candidates), and on a few visible ones
